@@ -107,7 +107,16 @@ def run(ctx):
     maxops = 4 if ctx.tier == "thorough" else 3
     r, reps = sc.model("C02_mc", "content", maxops, [1, 2, 3])
     sc.model_sanity("C02_dev")
+    # histories TLC does not draw (its writes all differ): the daemon writes what it wrote last time over a file that somebody else has
+    # replaced in between (a restored backup, a deployment tool) - every type, pre-existing content or none, once and twice
+    n_model = len(reps)
+    for pre in (1, 2, 3):
+        for t in ("crt", "pk", "account"):
+            for hist in ([("w", 1, 1), ("x", 1, 7), ("w", 1, 1)], [("w", 1, 1), ("w", 1, 2), ("x", 1, 9), ("w", 1, 2)],
+                         [("w", 1, 3), ("x", 1, 8), ("w", 1, 3), ("x", 1, 6), ("w", 1, 3)]):
+                reps.append({"cfg": dict(reps[0]["cfg"], pre=pre), "hist": [{"type": t, "len": n, "fill": f, "external": k == "x"} for k, n, f in hist]})
     bad, rstats, path = sc.replay_and_validate("C02/replay", reps, sc.L02)
+    rstats["histories_with_foreign_replacements"] = len(reps) - n_model
     for idx, labs, ev in bad[:10]:
         rp = save_replay("C02", "hist%05d" % idx, {"behaviour.json": reps[idx], "violated.json": {"labels": labs, "event": ev}})
         ctx.verdict.violation("history %s: %s at %s" % (json.dumps(reps[idx]["hist"]), labs, json.dumps(ev)[:300]), rp)
